@@ -63,6 +63,11 @@ impl<R: Read + Seek> ReadBox<&mut R> for IlstBox {
                     "ilst box contains a box with a larger size than it",
                 ));
             }
+            if s == 0 {
+                return Err(Error::InvalidData(
+                    "ilst box contains a box with size 0",
+                ));
+            }
 
             match name {
                 BoxType::NameBox => {
